@@ -249,6 +249,29 @@ func symBinop(fr *frame, op token.Token, t types.Type, x, y value) (value, bool)
 			return mkLt(b, a), true
 		case token.GEQ:
 			return mkLe(b, a), true
+		case token.XOR, token.OR:
+			// bit-wise XOR / OR of non-negative operands as uninterpreted functions with the facts that
+			// constant-time comparison loops rely on:  x^y = 0 <=> x = y,  x|y = 0 <=> x = 0 and y = 0,
+			// results are non-negative and no larger than what the operand widths allow (x|y >= x, y).
+			if (a.IsConst() && a.I.Sign() < 0) || (b.IsConst() && b.I.Sign() < 0) {
+				panic(unmodelled{"symbolic integer operator " + op.String() + " with a negative constant"})
+			}
+			m := fr.i.m
+			nonneg := mkAnd(mkLe(mkInt(0), a), mkLe(mkInt(0), b))
+			ax := func(t *Term) { m.assume(mkImplies(nonneg, t)) }
+			if op == token.XOR {
+				r = mkUF("u_xor", SInt, a, b)
+				ax(mkEq(mkEq(r, mkInt(0)), mkEq(a, b)))
+				m.assume(mkEq(r, mkUF("u_xor", SInt, b, a)))
+			} else {
+				r = mkUF("u_or", SInt, a, b)
+				ax(mkEq(mkEq(r, mkInt(0)), mkAnd(mkEq(a, mkInt(0)), mkEq(b, mkInt(0)))))
+				ax(mkAnd(mkLe(a, r), mkLe(b, r)))
+			}
+			ax(mkLe(mkInt(0), r))
+			ax(mkLe(r, mkAdd(a, b)))
+			m.note("bit-wise " + op.String() + " of symbolic integers is an uninterpreted function with zero-test axioms (stated for non-negative operands)")
+			return r, true
 		default:
 			panic(unmodelled{"symbolic integer operator " + op.String()})
 		}
